@@ -74,6 +74,11 @@ func classOf(msg string) string {
 		{"index out of range", "index-oob"},
 		{"slice bounds out of range", "slice-oob"},
 		{"insufficient funds", "insufficient-funds"},
+		{"invalid coins", "invalid-coins"},
+		{"decoding bech32 failed", "invalid-bech32"},
+		{"empty address string", "invalid-bech32"},
+		{"no concrete type registered", "any-unregistered-type"},
+		{"unable to resolve type URL", "any-unregistered-type"},
 		{"interface conversion", "type-assertion"},
 		{"Int overflow", "int-overflow"},
 		{"validator not found", "validator-not-found"},
